@@ -142,7 +142,7 @@ func entAny(e cache.Entry) Ent {
 
 type shardedAd struct{ c *cache.ShardedMap }
 
-func (a *shardedAd) Kind() string    { return "ShardedMap" }
+func (a *shardedAd) Kind() string     { return "ShardedMap" }
 func (a *shardedAd) Raw() interface{} { return a.c }
 func (a *shardedAd) Index() *cache.InvalidationIndex {
 	return a.c.InvalidationIndex
@@ -177,7 +177,7 @@ func (a *shardedAd) Restore(r io.Reader) (int, error) { return a.c.Restore(r) }
 
 type syncAd struct{ c *cache.SyncMap }
 
-func (a *syncAd) Kind() string    { return "SyncMap" }
+func (a *syncAd) Kind() string     { return "SyncMap" }
 func (a *syncAd) Raw() interface{} { return a.c }
 func (a *syncAd) Index() *cache.InvalidationIndex {
 	return a.c.InvalidationIndex
@@ -210,7 +210,7 @@ func (a *syncAd) Restore(r io.Reader) (int, error) { return a.c.Restore(r) }
 
 type ofAd struct{ c *cache.ShardedMapOf[string] }
 
-func (a *ofAd) Kind() string    { return "ShardedMapOf" }
+func (a *ofAd) Kind() string     { return "ShardedMapOf" }
 func (a *ofAd) Raw() interface{} { return a.c }
 func (a *ofAd) Index() *cache.InvalidationIndex {
 	return a.c.InvalidationIndex
